@@ -232,6 +232,9 @@ func (it *interp) evalFunc(fn *ssa.Function, args []iv) (iv, error) {
 	feasible := map[edge]bool{}
 	live := map[*ssa.BasicBlock]bool{fn.Blocks[0]: true}
 	var ret iv
+	// branch refinement: what a comparison that guards a block says about its operands
+	refine := map[*ssa.BasicBlock]map[ssa.Value]iv{}
+	var cur *ssa.BasicBlock
 	get := func(v ssa.Value) (iv, error) {
 		if c, ok := v.(*ssa.Const); ok {
 			x, ok := it.constIV(c)
@@ -241,15 +244,51 @@ func (it *interp) evalFunc(fn *ssa.Function, args []iv) (iv, error) {
 			return x, nil
 		}
 		if x, ok := vals[v]; ok {
+			if x.kind == 'i' {
+				for d := cur; d != nil; d = d.Idom() {
+					if r, has := refine[d][v]; has {
+						lo, hi := x.ilo, x.ihi
+						if r.ilo.Cmp(lo) > 0 {
+							lo = r.ilo
+						}
+						if r.ihi.Cmp(hi) < 0 {
+							hi = r.ihi
+						}
+						if lo.Cmp(hi) <= 0 {
+							x = ivInt(lo, hi)
+						}
+					}
+				}
+			}
 			return x, nil
 		}
 		return iv{}, fmt.Errorf("value %s (%T) in %s is not evaluable", v.Name(), v, FuncName(fn))
+	}
+	narrow := func(blk *ssa.BasicBlock, v ssa.Value, lo, hi *big.Int) {
+		if _, isC := v.(*ssa.Const); isC || len(blk.Preds) != 1 {
+			return
+		}
+		x, ok := vals[v]
+		if !ok || x.kind != 'i' {
+			return
+		}
+		if lo == nil {
+			lo = x.ilo
+		}
+		if hi == nil {
+			hi = x.ihi
+		}
+		if refine[blk] == nil {
+			refine[blk] = map[ssa.Value]iv{}
+		}
+		refine[blk][v] = ivInt(lo, hi)
 	}
 	for _, b := range order {
 		if !live[b] {
 			continue
 		}
 		for _, in := range b.Instrs {
+			cur = b
 			switch x := in.(type) {
 			case *ssa.Phi:
 				var acc iv
@@ -257,6 +296,7 @@ func (it *interp) evalFunc(fn *ssa.Function, args []iv) (iv, error) {
 					if !feasible[edge{pred, b}] {
 						continue
 					}
+					cur = pred
 					e, err := get(x.Edges[k])
 					if err != nil {
 						return iv{}, err
@@ -269,10 +309,18 @@ func (it *interp) evalFunc(fn *ssa.Function, args []iv) (iv, error) {
 				case token.MUL:
 					g, ok := x.X.(*ssa.Global)
 					if !ok {
-						return iv{}, fmt.Errorf("load of %s is not evaluable", x.X.Name())
+						// a load this interpreter cannot follow (a flag's target, a field): any
+						// value of its type — sound, and an error only if the type is not integral
+						if lo, hi, isInt := typeRange(x.Type()); isInt {
+							vals[x] = ivInt(lo, hi)
+						}
+						continue
 					}
 					gv, ok := it.globals[GlobalName(g)]
 					if !ok {
+						if _, isPtr := x.Type().Underlying().(*types.Pointer); isPtr {
+							continue // e.g. a flag variable: its target is loaded next
+						}
 						return iv{}, fmt.Errorf("package variable %s has no statically known value", GlobalName(g))
 					}
 					vals[x] = gv
@@ -364,7 +412,8 @@ func (it *interp) evalFunc(fn *ssa.Function, args []iv) (iv, error) {
 				default:
 					f := StaticFunc(x.Common())
 					if f == nil || !it.p.IsModFunc(f) {
-						return iv{}, fmt.Errorf("call of %s is not evaluable", callee)
+						// no value: an error only if the result is needed (log calls are not)
+						continue
 					}
 					var as []iv
 					for _, av := range x.Call.Args {
@@ -394,6 +443,49 @@ func (it *interp) evalFunc(fn *ssa.Function, args []iv) (iv, error) {
 					feasible[edge{b, b.Succs[1]}] = true
 					live[b.Succs[1]] = true
 				}
+				if bo, isBO := x.Cond.(*ssa.BinOp); isBO {
+					av, e1 := get(bo.X)
+					bv, e2 := get(bo.Y)
+					if e1 == nil && e2 == nil && av.kind == 'i' && bv.kind == 'i' {
+						one := big.NewInt(1)
+						for side, blk := range b.Succs {
+							op := bo.Op
+							if side == 1 {
+								switch op {
+								case token.LSS:
+									op = token.GEQ
+								case token.LEQ:
+									op = token.GTR
+								case token.GTR:
+									op = token.LEQ
+								case token.GEQ:
+									op = token.LSS
+								case token.EQL:
+									op = token.NEQ
+								case token.NEQ:
+									op = token.EQL
+								}
+							}
+							switch op {
+							case token.LSS:
+								narrow(blk, bo.X, nil, new(big.Int).Sub(bv.ihi, one))
+								narrow(blk, bo.Y, new(big.Int).Add(av.ilo, one), nil)
+							case token.LEQ:
+								narrow(blk, bo.X, nil, bv.ihi)
+								narrow(blk, bo.Y, av.ilo, nil)
+							case token.GTR:
+								narrow(blk, bo.X, new(big.Int).Add(bv.ilo, one), nil)
+								narrow(blk, bo.Y, nil, new(big.Int).Sub(av.ihi, one))
+							case token.GEQ:
+								narrow(blk, bo.X, bv.ilo, nil)
+								narrow(blk, bo.Y, nil, av.ihi)
+							case token.EQL:
+								narrow(blk, bo.X, bv.ilo, bv.ihi)
+								narrow(blk, bo.Y, av.ilo, av.ihi)
+							}
+						}
+					}
+				}
 			case *ssa.Jump:
 				feasible[edge{b, b.Succs[0]}] = true
 				live[b.Succs[0]] = true
@@ -408,7 +500,7 @@ func (it *interp) evalFunc(fn *ssa.Function, args []iv) (iv, error) {
 				ret = ret.join(r)
 			case *ssa.DebugRef:
 			default:
-				return iv{}, fmt.Errorf("unsupported instruction %T in %s", in, FuncName(fn))
+				// no value is computed: using one of its results is reported by get
 			}
 		}
 	}
@@ -434,6 +526,118 @@ func (it *interp) evalFunc(fn *ssa.Function, args []iv) (iv, error) {
 		}
 	}
 	return ret, nil
+}
+
+// evalValue: the interval of a value of a function that may contain loops — constants,
+// calls of loop-free module functions on evaluable arguments; anything else of integer
+// type ranges over its whole type (sound).
+func (it *interp) evalValue(v ssa.Value, depth int) (iv, error) {
+	if c, ok := v.(*ssa.Const); ok {
+		x, ok := it.constIV(c)
+		if !ok {
+			return iv{}, fmt.Errorf("unsupported constant %s", c)
+		}
+		return x, nil
+	}
+	if depth < 4 {
+		switch x := v.(type) {
+		case *ssa.Call:
+			if f := StaticFunc(x.Common()); f != nil && it.p.IsModFunc(f) {
+				var as []iv
+				for _, av := range x.Call.Args {
+					a, err := it.evalValue(av, depth+1)
+					if err != nil {
+						return iv{}, err
+					}
+					as = append(as, a)
+				}
+				return it.evalFunc(f, as)
+			}
+		case *ssa.Convert:
+			if a, err := it.evalValue(x.X, depth+1); err == nil && a.kind == 'i' {
+				if lo, hi, ok := typeRange(x.Type()); ok && a.ilo.Cmp(lo) >= 0 && a.ihi.Cmp(hi) <= 0 {
+					return a, nil
+				}
+			}
+		case *ssa.Phi:
+			var acc iv
+			for _, e := range x.Edges {
+				a, err := it.evalValue(e, depth+1)
+				if err != nil {
+					return iv{}, err
+				}
+				acc = acc.join(a)
+			}
+			return acc, nil
+		case *ssa.UnOp:
+			if g, ok := x.X.(*ssa.Global); ok && x.Op == token.MUL {
+				if gv, ok := it.globals[GlobalName(g)]; ok {
+					return gv, nil
+				}
+			}
+		}
+	}
+	if lo, hi, ok := typeRange(v.Type()); ok {
+		return ivInt(lo, hi), nil
+	}
+	return iv{}, fmt.Errorf("value %s of type %s is not evaluable", v.Name(), v.Type())
+}
+
+// evalInit: the value of a package-level initialiser built from constants, math.Log2 and
+// numeric conversions (evaluated with outward rounding).
+func (it *interp) evalInit(v ssa.Value, depth int) (iv, bool) {
+	if depth > 6 {
+		return iv{}, false
+	}
+	switch x := v.(type) {
+	case *ssa.Const:
+		return it.constIV(x)
+	case *ssa.Call:
+		if CalleeName(x.Common()) == "math.Log2" {
+			if f, ok := it.evalInit(x.Call.Args[0], depth+1); ok && f.kind == 'f' && f.flo > 0 {
+				return ivF(down(math.Log2(f.flo)), up(math.Log2(f.fhi))), true
+			}
+		}
+	case *ssa.ChangeType:
+		return it.evalInit(x.X, depth+1)
+	case *ssa.Convert:
+		a, ok := it.evalInit(x.X, depth+1)
+		bt, _ := x.Type().Underlying().(*types.Basic)
+		if !ok || bt == nil {
+			return iv{}, false
+		}
+		switch {
+		case bt.Info()&types.IsFloat != 0:
+			if a.kind == 'f' {
+				return a, true
+			}
+			if a.kind == 'i' && a.ilo.IsInt64() && a.ihi.IsInt64() && abs64(a.ilo.Int64()) < 1<<53 && abs64(a.ihi.Int64()) < 1<<53 {
+				return ivF(float64(a.ilo.Int64()), float64(a.ihi.Int64())), true
+			}
+		case bt.Info()&types.IsInteger != 0:
+			if a.kind == 'i' {
+				if lo, hi, ok := typeRange(x.Type()); ok && a.ilo.Cmp(lo) >= 0 && a.ihi.Cmp(hi) <= 0 {
+					return a, true
+				}
+			}
+			if a.kind == 'f' && !math.IsNaN(a.flo) && !math.IsInf(a.flo, 0) && !math.IsInf(a.fhi, 0) {
+				lo, _ := big.NewFloat(math.Trunc(a.flo)).Int(nil)
+				hi, _ := big.NewFloat(math.Trunc(a.fhi)).Int(nil)
+				if tlo, thi, ok := typeRange(x.Type()); ok && lo.Cmp(tlo) >= 0 && hi.Cmp(thi) <= 0 {
+					return ivInt(lo, hi), true
+				}
+			}
+		}
+	case *ssa.BinOp:
+		a, ok1 := it.evalInit(x.X, depth+1)
+		b, ok2 := it.evalInit(x.Y, depth+1)
+		if ok1 && ok2 {
+			if r, err := it.binop(x, a, b); err == nil {
+				return r, true
+			}
+		}
+	}
+	return iv{}, false
 }
 
 func abs64(x int64) int64 {
@@ -575,19 +779,8 @@ func staticGlobals(c *Ctx, p *Prog, it *interp) {
 		if len(sts) != 1 || sts[0].Parent() != initFn {
 			continue
 		}
-		switch v := sts[0].Val.(type) {
-		case *ssa.Const:
-			if x, ok := it.constIV(v); ok {
-				it.globals[name] = x
-			}
-		case *ssa.Call:
-			if CalleeName(v.Common()) == "math.Log2" {
-				if cst, ok := v.Call.Args[0].(*ssa.Const); ok {
-					if f, ok := it.constIV(cst); ok && f.kind == 'f' && f.flo > 0 {
-						it.globals[name] = ivF(down(math.Log2(f.flo)), up(math.Log2(f.fhi)))
-					}
-				}
-			}
+		if x, ok := it.evalInit(sts[0].Val, 0); ok {
+			it.globals[name] = x
 		}
 	}
 }
@@ -905,6 +1098,14 @@ func c08ErrorClassification(c *Ctx, p *Prog) {
 		for _, r := range Returns(f) {
 			if CallResult(ReturnValue(r, 1), 1, ModPath+"/agent/utils.parseRequestIDs") != nil {
 				okr = true
+			}
+			// … also when the body was moved into a new helper whose results are returned as they are
+			if rs := Roots(ReturnValue(r, 1)); len(rs) > 0 {
+				for _, x := range rs {
+					if CallResult(x, 1, ModPath+"/agent/utils.parseRequestIDs") != nil {
+						okr = true
+					}
+				}
 			}
 			if call, isC := ReturnValue(r, 0).(*ssa.Call); isC && CalleeName(call.Common()) == ModPath+"/agent/utils.parseRequestIDs" {
 				okr = true
